@@ -21,7 +21,7 @@ ASSUMPTIONS = ['float64 operands; NumPy reduction order differs from the model f
                'the implementation is accepted by the comparison']
 TRUSTED_BASE = ['harness/tprog.py, harness/gen_ops.py']
 # ops whose VJP theorem is not (yet) part of Props/C01.lean: modelled and corresponded only
-UNPROVED = ['max', 'min (subgradient form: in progress)']
+UNPROVED = []
 
 
 def build(rng, op, malformed, gen=None):
@@ -59,7 +59,7 @@ def cases(rng, tier):
     out = []
     per = 14 if tier == 'quick' else 400
     for op in gen_ops.OPS_BASIC:
-        for k in range(per):
+        for k in range(per * (3 if op == 'slice' else 1)):      # the index-expression space is the largest
             malformed = rng.chance(0.08)
             try:
                 out.append(finish(build(rng, op, malformed), rng))
